@@ -363,6 +363,9 @@ class MethodsMixin(object):
                     st.heap[out.oid] = HList(c.ek, c.n + 1, z3.Store(c.arr, c.n, s))
                 return VNone()
             return VFun("file.write", m_write)
+        if name + "()" in cell.f:
+            val = cell.f[name + "()"]
+            return VFun("%s.%s" % (cell.cls, name), lambda ex, st, args, kw, node, val=val: val)
         if cell.cls == "file" and name == "readlines":
             return VFun("file.readlines", lambda ex, st, args, kw, node: st.heap[ref.oid].f["lines"])
         if cell.cls == "Tree" and name == "setdefault":
@@ -458,7 +461,28 @@ class MethodsMixin(object):
                 return st.alloc(HDict(items=dict(kw)))
             raise OutOfSubset("dict(x)", node)
 
-        for nm, f in dict(len=f_len, str=f_str, int=f_int, bool=f_bool, isinstance=f_isinstance, min=f_min,
+        def f_getattr(ex, st, args, kw, node):
+            obj, name = args[0], args[1]
+            if not (isinstance(name, VStr) and z3.is_string_value(name.e)):
+                raise OutOfSubset("getattr with a computed name", node)
+            nm_ = name.e.as_string()
+            if len(args) < 3:
+                return self.getattr(obj, nm_, st, node)
+            default = args[2]
+            if isinstance(obj, VNone):
+                return default
+            if isinstance(obj, VOpt):
+                st.guards.append(z3.Not(obj.isnone))
+                try:
+                    val = self.getattr(obj.val, nm_, st, node)
+                finally:
+                    st.guards.pop()
+                return self.ite(obj.isnone, default, val, st, node)
+            if isinstance(obj, VRef) and isinstance(st.heap[obj.oid], HObj) and nm_ in st.heap[obj.oid].f:
+                return st.heap[obj.oid].f[nm_]
+            raise OutOfSubset("getattr(%r, %r, default)" % (obj, nm_), node)
+
+        for nm, f in dict(getattr=f_getattr, len=f_len, str=f_str, int=f_int, bool=f_bool, isinstance=f_isinstance, min=f_min,
                           max=f_max, range=f_range, list=f_list, dict=f_dict).items():
             b[nm] = VFun(nm, f)
         for t in ("RuntimeError", "ValueError", "TypeError", "KeyError", "IndexError", "AttributeError",
@@ -603,7 +627,25 @@ class MethodsMixin(object):
         def sf_lastpiece(node, st):
             return VStr(LASTPIECE(self.ev(node.args[0], st).e, self.ev(node.args[1], st).e))
 
-        return dict(firstfield=sf_firstfield, lastpiece=sf_lastpiece, isint=sf_isint, isstr=sf_isstr, asstr=sf_asstr, WC=sf_wc, code=_sf_code(self), all=sf_all, old=sf_old, implies=sf_implies, iff=sf_iff, allws=sf_allws,
+        def sf_same_except(node, st):
+            """same_except(d, old_d, 'k1', 'k2', ...): every key other than the listed ones is unchanged"""
+            d = st.heap[self.ev(node.args[0], st).oid]
+            o = st.heap[self.ev(node.args[1], st).oid]
+            ks = [self.ev(a, st).e for a in node.args[2:]]
+            keys, vals = o.keys, o.vals
+            for k in ks:
+                keys = z3.Store(keys, k, z3.Select(d.keys, k))
+                vals = z3.Store(vals, k, z3.Select(d.vals, k))
+            return VBool(z3.And(d.keys == keys, d.vals == vals))
+
+        def sf_isnone(node, st):
+            return VBool(self.compare(ast.Is(), self.ev(node.args[0], st), VNone(), st, node))
+
+        def sf_isbool(node, st):
+            v = self.ev(node.args[0], st)
+            return VBool(self.isinstance1(v, "bool", st, node))
+
+        return dict(same_except=sf_same_except, isnone=sf_isnone, isbool=sf_isbool, firstfield=sf_firstfield, lastpiece=sf_lastpiece, isint=sf_isint, isstr=sf_isstr, asstr=sf_asstr, WC=sf_wc, code=_sf_code(self), all=sf_all, old=sf_old, implies=sf_implies, iff=sf_iff, allws=sf_allws,
                     lstrip=sf_lstrip, rstrip=sf_rstrip)
 
 
